@@ -1,0 +1,9 @@
+//go:build !verif
+
+package common
+
+// VerifNew and VerifPoint are verification hooks. Without the `verif` build
+// tag they are empty and compile to nothing.
+func VerifNew(kind string) uint64 { return 0 }
+
+func VerifPoint(id uint64, point string, kv ...interface{}) {}
